@@ -157,7 +157,7 @@ def r3_guard(ck, F, d):
         return
     site = cs[0][0]
     a = b.arg_exprs(site)
-    bound_ok = is_call(a[0], "::" + D["far"]) and is_self_field(a[0].strip().a[0], "range")
+    bound_ok = (is_call(a[0], "::" + D["far"]) and is_self_field(a[0].strip().a[0], "range")) or is_self_field(a[0], "range", "1" if D["far"] == "end_bound" else "0")
     key = a[1]
     tested = cursor_sources(key)
     ck.ob(R, f"tests-far-bound/{d}", bound_ok, f"membership is tested against self.range.{D['far']}() ({a[0].show()[:70]})", b, site)
